@@ -19,7 +19,7 @@ def job_breaktime(N, T, hint_mode="any"):
     tz.install_contracts(ex)
     NM = tz.names()
     def h(ex, st):
-        z = tz.build_zone(ex, st, N, T)
+        z = tz.build_zone(ex, st, N, T, spacing=False)       # any table Load can produce: C02's spacing premise is not needed
         t = ex.input("t")
         tp = ex.new_obj(st, 8, "tp"); ex.store_raw(st, tp, 8, t)
         al = ex.new_obj(st, 32, "absolute_lookup")
